@@ -561,7 +561,7 @@ def run(rep, tier="quick", srcdir=None, only=None):
 
 
 MANIFEST = {
-    "technique": "path-sensitive reference-pairing rules (retain before publish, CONSUME_2 iff entitled), dominating-condition rules and ordering rules over the LLVM IR",
+    "technique": "path-sensitive reference-pairing rules (retain before publish, CONSUME_2 iff entitled), dominating-condition rules and ordering rules over the LLVM IR + block-capture ownership rule on io.c (a completion block that releases a capture was given that reference before every submission)",
     "level": "the named pairings only: +2 on first push / suspend and its consumption, the entitlement condition of every CONSUME_2 in the in-place barrier "
              "completion, group self-retain keyed on the count field, the release chain and finalizer ordering in _dispatch_dispose, data sub-object ownership. "
              "General absence of use-after-free (whole-program ownership) is NOT decided",
